@@ -138,7 +138,10 @@ func Execute(p *Prop, idx int, t *Tape, kf *KnownFindings, trace bool) (res RunR
 // repetition only compensates for sensors that may miss (the race detector loses a report when some runtime-internal
 // synchronisation happens to order the two goroutines).
 func ExecuteRetry(p *Prop, idx int, tape []uint32, kf *KnownFindings, trace bool) RunResult {
-	n := p.Attempts
+	return executeRetryN(p, idx, tape, kf, trace, p.Attempts)
+}
+
+func executeRetryN(p *Prop, idx int, tape []uint32, kf *KnownFindings, trace bool, n int) RunResult {
 	if n < 1 {
 		n = 1
 	}
